@@ -493,73 +493,28 @@ func c05Constructor(c *Ctx, R *ssa.Function, vcCall, vCall *ssa.Call) {
 		c.Unk("constructor/fields", "anchor: the verifier fields holding the code-signing validator and the client", w.FnPos(R), "not recognised")
 		return
 	}
-	rule := "constructor: every success exit of a function that configures the code-signing revocation fields stores a non-nil validator or client (or the value of a constructor call whose error was checked)"
+	rule := "constructor: every success exit of a function that configures the code-signing revocation fields (stores them, or calls a module function that stores them into the verifier it is handed) has stored a non-nil validator or client " +
+		"(a value found non-nil, the value of a constructor call whose error was checked, the result of a module helper that is such a value on every success exit of the helper), itself or through a module function every success exit of which has done so and whose error was checked or is returned"
+	// Decided on store points composed through helpers: see the comment at c05Ctor (extra_c05.go).
+	x := &c05Ctor{w: w, t: t1, f1: f1, f2: f2, memo: map[c05CtorKey]*c05CtorSum{}, busy: map[c05CtorKey]bool{}, retM: map[string]int{}}
 	n := 0
 	for _, fn := range w.FuncsOfPkg("verifier") {
-		if fn == R {
+		if fn == R || len(fn.Blocks) == 0 {
 			continue
 		}
-		fi := w.Info(fn)
-		var storeBlocks []*ssa.BasicBlock
-		okVals := true
-		for _, b := range fn.Blocks {
-			for _, in := range b.Instrs {
-				st, ok := in.(*ssa.Store)
-				if !ok {
-					continue
-				}
-				fa, ok := st.Addr.(*ssa.FieldAddr)
-				if !ok || namedOf(fa.X.Type()) != t1 || (fa.Field != f1 && fa.Field != f2) {
-					continue
-				}
-				good := fi.nonNil(st.Val, b)
-				if !good {
-					if ex, ok := st.Val.(*ssa.Extract); ok {
-						if call, ok := ex.Tuple.(*ssa.Call); ok {
-							if labelHas(fi.GuardsOf(st), "EQ("+descTailErr(call)+",nil)") {
-								good = true
-							}
-						}
-					}
-					// phi of such values
-					if p, ok := st.Val.(*ssa.Phi); ok {
-						good = true
-						for i, e := range p.Edges {
-							if fi.nonNil(e, p.Block().Preds[i]) {
-								continue
-							}
-							if ex, ok := e.(*ssa.Extract); ok {
-								if call, ok := ex.Tuple.(*ssa.Call); ok {
-									gl, _ := fi.mustPassBetween([]int{0}, map[int]bool{p.Block().Preds[i].Index: true})
-									if labelHas(gl, "EQ("+descTailErr(call)+",nil)") {
-										continue
-									}
-								}
-							}
-							good = false
-						}
-					}
-				}
-				if good {
-					storeBlocks = append(storeBlocks, b)
-				} else {
-					okVals = false
-				}
-			}
-		}
-		if len(storeBlocks) == 0 && okVals {
+		pt := x.points(fn, nil, false)
+		if !pt.stores {
 			continue
 		}
 		n++
 		c.SeenFn(fn.String())
-		if nres := fn.Signature.Results().Len(); nres == 0 || !isErrorType(fn.Signature.Results().At(nres-1).Type()) {
-			continue
+		for _, g := range pt.calledFn {
+			c.SeenFn(g.String())
 		}
-		cut := map[edgeKey]bool{}
-		for _, b := range storeBlocks {
-			cutInto(fi, b, cut)
+		if !c05HasErrResult(fn) {
+			continue // no success exit of its own: judged where it is called (c05Ctor.sum)
 		}
-		wit := fi.successWitness(Mode{Kind: mErr}, entryState(), cut)
+		wit := x.succeedsWithout(fn, pt)
 		c.Evals++
 		c.Check(wit == nil, "constructor/"+fnName(fn), rule, w.FnPos(fn), "a success exit leaves both the code-signing validator and the client unset (or possibly nil)", wit...)
 	}
